@@ -89,7 +89,7 @@ def run(ctx, out, tier):
             else:
                 out.viol("C15.checker", "C15.checker|%s" % meth["name"], ctx.where(b),
                          "`%s` tests field(s) %s (expected `%s`, un-negated `GlobSet::is_match`)" % (meth["name"], sorted(fields), want))
-    main = ctx.facts.bodies.get("bwbin::main")
+    main = ctx.main_view()
     if main is not None:
         for bi, t in main.calls():
             if callee_matches(t, r"blocks::PathCheckerImpl::new$"):
